@@ -1,4 +1,5 @@
 from datetime import datetime
+from io import BytesIO
 from pathlib import Path
 from typing import IO, List, Optional, Type, Union
 
@@ -332,6 +333,24 @@ class Tdf:
         """Convenience property to get/set the calibration data block."""
         return self.get_block(CalibrationDataBlock.type)
 
+    @staticmethod
+    def _serialize(newBlock: Block, comment: str) -> bytes:
+        """Serialize a block (and a table entry for it, to validate the comment,
+        dates and size) without touching any file"""
+        payload = BytesIO()
+        newBlock._write(payload)
+        TdfEntry(
+            type=newBlock.type,
+            format=newBlock.format.value,
+            offset=0,
+            size=newBlock.nBytes,
+            creation_date=newBlock.creation_date,
+            last_modification_date=newBlock.last_modification_date,
+            last_access_date=datetime.now(),
+            comment=comment,
+        )._write(BytesIO())
+        return payload.getvalue()
+
     @raise_if_outside_write_context
     def add_block(
         self, newBlock: Block, comment: str = "Generated by basicTDF"
@@ -370,6 +389,16 @@ class Tdf:
         except StopIteration:
             raise ValueError(f"Block limit reached ({len(self.entries)})")
 
+        # serialize the block and its entry first: anything that can't be
+        # encoded must raise before the file or the entries are touched
+        payload = self._serialize(newBlock, comment)
+
+        if any(
+            entry.type != BlockType.unusedSlot
+            for entry in self.entries[unusedBlockPos + 1 :]
+        ):
+            raise IOError("All unused slots must be at the end of the file")
+
         # write new entry with the offset of that unused slot
         new_entry = TdfEntry(
             type=newBlock.type,
@@ -402,7 +431,7 @@ class Tdf:
 
         # write new block
         self.handler.seek(new_entry.offset, 0)
-        newBlock._write(self.handler)
+        self.handler.write(payload)
 
         # ensure the file is the correct size
         # and that the changes are written to disk
